@@ -5,9 +5,11 @@
 
     C13_complete_<fault> (partial): the check that must fire at a faulty site DOES emit the diagnostic of the
     class on the range of the site in the current file (for all programs/states/fuels), and
-    C13_diagnostics_persist: nothing indexed afterwards removes it.  What is NOT under a theorem yet is that the
-    indexer reaches every site of a Core program (`visited_all`, the coverage lemma of C05_resolution); that
-    part is covered by the correspondence and the oracle of checks/C13.py.  *)
+    C13_diagnostics_persist: nothing indexed afterwards removes it.  That the indexer reaches every USE site of a
+    program of the fragment is C13_visited_all_*_partial below (the coverage lemma of C05_resolution, for one file,
+    for workspaces, and with field accesses); C13_sound_no_not_found_*_partial is the resolution half of soundness on
+    the same fragments.  Outside the fragments, and for the typing half of soundness, the correspondence and the
+    oracle of checks/C13.py.  *)
 From Coq Require Import List NArith Bool.
 From TG.Model Require Import CoreAst Scope BangOps Indexer.
 From TG.Model Require Import ScopeSpec.
